@@ -82,7 +82,7 @@ def partition_functions(nmax):
             for p in parts:
                 for q in orderings(p):
                     d = subroutines.event_dict([list(b) for b in q])
-                    if set(d) != set(range(n)) or any(e not in q[d[e]] for e in d):
+                    if set(d) != set(range(n)) or any(not (isinstance(d[e], int) and 0 <= d[e] < len(q) and e in q[d[e]]) for e in d):
                         return f"event_dict({q}) = {d}"
             return True
         one(("rsome.subroutines:event_dict", "maps-each-scenario-to-its-block", f"all partitions of {n} scenarios"), ed)
@@ -105,6 +105,27 @@ def partition_functions(nmax):
                                         return f"comb_set({q1},{q2}) = {r}: {i},{j}"
             return True
         one(("rsome.subroutines:comb_set", "coarsest-common-refinement", f"all pairs of partitions of {n} scenarios"), cs)
+    return out
+
+
+def partition_functions_lv():
+    """event_dict and comb_set for partitions of EVERY size: loop-invariant VCs generated from the AST of the real functions
+    (rverif/lv.py, contracts in props/c13_lv.py).  A VC that is not discharged is a violation only together with a concrete
+    failing input found by the bounded enumeration above on the real code; otherwise it is undecided."""
+    from .. import lv
+    from . import c13_lv
+    reg = {"event_dict": (subroutines.event_dict, c13_lv.EVENT_DICT), "comb_set": (subroutines.comb_set, c13_lv.COMB_SET)}
+
+    def search(fname):
+        def run():
+            for o in partition_functions(5):
+                if o["function"].endswith(fname) and o["status"] != "discharged":
+                    return (o.get("replayed") or {}).get("inputs", {}).get("failing case") or o.get("reason") or "fails"
+            return True
+        return run
+    out = []
+    for name in ("event_dict", "comb_set"):
+        out += lv.verify_function("rsome.subroutines:" + name, reg[name][0], reg[name][1], reg, native_search=search(name))
     return out
 
 
@@ -473,7 +494,7 @@ def operator_labels():
 
 def jobs(tier):
     nmax = 4 if tier == "quick" else 5
-    return [{"name": "partition-functions", "kind": "pf", "nmax": nmax}, {"name": "adapt-sequences", "kind": "adapt", "n": 3 if tier == "quick" else 4},
+    return [{"name": "partition-functions", "kind": "pf", "nmax": nmax}, {"name": "partition-functions-all-sizes", "kind": "lv"}, {"name": "adapt-sequences", "kind": "adapt", "n": 3 if tier == "quick" else 4},
             {"name": "masks", "kind": "masks"}, {"name": "rule-columns", "kind": "rules"}, {"name": "operator-labels", "kind": "ops"}]
 
 
@@ -481,6 +502,8 @@ def run_job(job):
     k = job["kind"]
     if k == "pf":
         return partition_functions(job["nmax"])
+    if k == "lv":
+        return partition_functions_lv()
     if k == "adapt":
         return adapt_sequences(job["n"])
     if k == "masks":
